@@ -22,7 +22,7 @@ def enum_paths(cfg: CFG, targets: Iterable[Node], sources: Optional[Iterable[Nod
     """All acyclic paths (no node repeated) from the sources / start edges to
     any target.  Paths do not continue through a target or a `stop_at` node.
     A path from a source given as node starts with its outgoing edges."""
-    flags = flag_vars(cfg) if flag_sensitive else set()
+    flags = flag_vars(cfg) if flag_sensitive else None
     tg = {t.id for t in targets}
     stops = {s.id for s in stop_at} if stop_at else set()
     out: List[List[Edge]] = []
@@ -95,6 +95,22 @@ def subst(expr: ast.expr, env: Dict[str, ast.expr]) -> ast.expr:
     return _Subst(env).visit(clone(expr))
 
 
+class _Project(ast.NodeTransformer):
+    def visit_Subscript(self, node: ast.Subscript):
+        self.generic_visit(node)
+        v, sl = node.value, node.slice
+        if isinstance(v, ast.Tuple) and isinstance(sl, ast.Constant) and isinstance(sl.value, int) \
+                and not isinstance(sl.value, bool) and -len(v.elts) <= sl.value < len(v.elts) \
+                and not any(isinstance(e, ast.Starred) for e in v.elts):
+            return v.elts[sl.value]
+        return node
+
+
+def simplify(expr: ast.expr) -> ast.expr:
+    """Constant subscripts of tuple displays are projected: `(a, b)[1]` -> `b` (on a clone)."""
+    return _Project().visit(clone(expr))
+
+
 def opaque(name: str, line: int, why: str = '') -> ast.expr:
     return ast.Name(id=f'<{name}@{line}{":" + why if why else ""}>', ctx=ast.Load())
 
@@ -146,7 +162,7 @@ def expand_inlined(cfg: CFG, expr: ast.expr) -> ast.expr:
 
 
 def sym_env(cfg: CFG, path: List[Edge], init: Optional[Dict[str, ast.expr]] = None,
-            upto: Optional[Node] = None) -> Dict[str, ast.expr]:
+            upto: Optional[Node] = None, through_unpack: bool = False) -> Dict[str, ast.expr]:
     """Symbolic environment after walking *path* (stores of nodes on the path
     are applied in order, including the first edge's source, excluding the
     final node)."""
@@ -164,7 +180,13 @@ def sym_env(cfg: CFG, path: List[Edge], init: Optional[Dict[str, ast.expr]] = No
         if n.kind == 'store_name':
             v = n.meta.get('value')
             name = n.meta['name']
-            if v is None:
+            st_ = n.meta.get('stmt')
+            if isinstance(st_, ast.AugAssign) and isinstance(st_.target, ast.Name) and st_.target.id == name:
+                # x op= e   ==   x = x op e
+                left = env.get(name, ast.Name(id=name, ctx=ast.Load()))
+                env[name] = ast.BinOp(left=clone(left), op=st_.op, right=subst(expand_inlined(cfg, st_.value), env))
+                continue
+            if v is None or (getattr(v, '_synth_unpack', False) and not through_unpack):
                 # bound by unpacking / iteration: the name denotes itself
                 env.pop(name, None)
             else:
